@@ -681,6 +681,41 @@ class Body:
                             acc = fs_join(acc, x)
                         return acc
             return frozenset()
+        if t["k"] == "call" and t["callee"].get("decl") == "std::iter::Iterator::find_map" and len(t["args"]) == 2:
+            site = (bb, self.term_idx(bb))
+            args = self.call_args(t, site)
+            cl = strip_load(deref_addr(self, args[1]))
+            ts = closure_then_some(self, cl)
+            if ts is None:
+                return frozenset()
+            cond, _, cb, csite = ts
+            item = ("item", deref_addr(self, args[0]), ("find", bb))
+            mapping = {("param", 2): item}
+            for ui, uop in enumerate(cl[2]):
+                mapping[("upvar", ui)] = self.expr_local(uop[1], uop[2]) if uop[0] == "addr" else uop
+            # `a && b` as a value: a flag assigned in guarded places
+            fs = set(cb.facts_at(csite))
+            ds = None
+            tt = cb.blocks[csite[0]]["term"]
+            arms = cb.bool_arms(tt["args"][0], csite) if tt["args"][0].get("k") in ("copy", "move") else None
+            if arms is not None:
+                p1 = cb.facts_in()
+                sel = []
+                for dsite, cval, rv, neg in arms:
+                    base = p1.get(dsite[0], frozenset())
+                    if cval is True:
+                        sel.append(base)
+                    elif cval is None and rv is not None:
+                        f = norm_cond(cb.expr_rvalue(rv, dsite), not neg)
+                        sel.append(fs_add(base, [f]))
+                if sel:
+                    acc = sel[0]
+                    for x in sel[1:]:
+                        acc = fs_join(acc, x)
+                    fs |= set(acc)
+            else:
+                fs.add(norm_cond(cond, True))
+            return frozenset(subst(f, mapping) for f in fs)
         if t["k"] != "call" or t["callee"].get("decl") != "std::iter::Iterator::find" or len(t["args"]) != 2:
             return frozenset()
         site = (bb, self.term_idx(bb))
@@ -967,17 +1002,27 @@ def canon_call(body, c, args, site):
         return ("next", a0, site[0])
     if decl == "std::iter::Iterator::find" and len(args) == 2:
         return ("find", a0, deref_addr(body, args[1]), site[0])
+    if decl == "std::iter::Iterator::find_map" and len(args) == 2:
+        # find_map(|x| cond(x).then_some(value(x)))  ==  find(cond).map(value)
+        cl = deref_addr(body, args[1])
+        ts = closure_then_some(body, cl)
+        if ts is not None:
+            item = ("item", a0, ("find", site[0]))
+            return ("optmap", unload(subst(ts[1], {("param", 2): item})), ("find", a0, cl, site[0]))
     if decl.startswith("std::option::Option::<T>::") and name == "unwrap_or" and len(args) == 2:
         return ("phi", (payload(a0), deref_addr(body, args[1])))
-    if decl.startswith("std::option::Option::<T>::") and name in ("map", "copied", "cloned") and args:
+    if decl.startswith("std::option::Option::<") and name in ("copied", "cloned") and len(args) == 1:
+        return a0    # Option<&T> -> Option<T>: the same option as far as provenance goes (references are transparent)
+    if (decl.startswith("std::option::Option::<T>::") or decl.startswith("std::result::Result::<T, E>::")) and \
+            name in ("map", "and_then") and len(args) == 2:
         inner = strip_load(a0)
-        if name in ("copied", "cloned"):
-            if inner[0] in ("find", "opt"):
-                return ("opt", payload(inner))
-        else:
-            proj = closure_projection(body, deref_addr(body, args[1]))
-            if proj is not None and inner[0] in ("find", "opt", "call"):
-                return ("optmap", subst(proj, {("param", 2): payload(inner)}), inner)
+        cl = deref_addr(body, args[1])
+        proj = closure_projection(body, cl) if name == "map" else None
+        if proj is not None:
+            return ("optmap", subst(proj, {("param", 2): payload(inner)}), inner)
+        res = closure_result(body, cl, payload(inner))
+        if res is not None:
+            return ("optmap", res, inner) if name == "map" else ("andthen", res, inner)
     if decl.startswith("std::iter::Iterator::") or decl.startswith("itertools::Itertools::"):
         if name in ("filter", "map", "enumerate", "skip", "copied", "cloned", "sorted", "sorted_by_key",
                     "sorted_by", "sorted_unstable", "rev", "take", "step_by", "filter_map", "skip_while",
@@ -990,6 +1035,58 @@ def deref_addr(body, e):
     """value behind the address of a plain local (refs are transparent)"""
     if isinstance(e, tuple) and e and e[0] == "addr":
         return body.expr_local(e[1], e[2])
+    return e
+
+
+def closure_then_some(body, cl):
+    """for a closure `|x| cond.then_some(value)`: (cond expression, value expression) over ("param", 2) / upvars"""
+    cl = strip_load(cl)
+    if cl[0] != "closure":
+        return None
+    cb = body.facts.bodies.get(cl[1])
+    if cb is None or cb.arg_count != 2:
+        return None
+    ds = cb.defs().get(0, [])
+    if len(ds) != 1 or ds[0][2] != "call":
+        return None
+    t = ds[0][3]
+    if t["callee"].get("name") != "then_some" or len(t["args"]) != 2:
+        return None
+    site = (ds[0][0], ds[0][1])
+    args = cb.call_args(t, site)
+    return (args[0], args[1], cb, site)
+
+
+def closure_result(body, cl, arg):
+    """value a closure returns when applied to `arg` (captures taken from the enclosing body); None if not computable"""
+    cl = strip_load(cl)
+    if cl[0] != "closure":
+        return None
+    cb = body.facts.bodies.get(cl[1])
+    if cb is None or cb.arg_count != 2 or len(cb.returns) != 1:
+        return None
+    r = cb.returns[0]
+    try:
+        e = cb.expr_local(0, (r, cb.term_idx(r)))
+    except RecursionError:
+        return None
+    mapping = {("param", 2): arg}
+    for ui, uop in enumerate(cl[2]):
+        mapping[("upvar", ui)] = body.expr_local(uop[1], uop[2]) if uop[0] == "addr" else uop
+    return resimplify(unload(subst(e, mapping)))
+
+
+def resimplify(e):
+    """re-apply the field/payload simplifications after a substitution exposed aggregates"""
+    if not isinstance(e, tuple) or not e or isinstance(e, frozenset):
+        return e
+    e = tuple(resimplify(x) if isinstance(x, tuple) else x for x in e)
+    if e[0] == "field" and isinstance(e[1], tuple) and e[1] and e[1][0] in ("tuple", "agg", "downcast", "binop"):
+        return mk_field(e[1], e[2])
+    if e[0] == "vfield" and isinstance(e[1], tuple):
+        return mk_vfield(e[1], e[2], e[3])
+    if e[0] == "some" and isinstance(e[1], tuple) and e[1] and e[1][0] in ("agg", "opt", "optmap", "andthen", "find", "phi"):
+        return payload(e[1])
     return e
 
 
@@ -1052,6 +1149,8 @@ def payload(e):
         return ("item", core[1], ("find", core[3]))
     if core[0] == "optmap":
         return core[1]
+    if core[0] == "andthen":
+        return payload(core[1])
     if core[0] == "phi":
         # the success payload of a value that is one of several Option/Result values: only the Some/Ok arms carry one
         arms = []
